@@ -425,6 +425,11 @@ StyleEntry(fmt, css, t) ==
 EffFlag(st, name) == IF \E k \in 1..Len(st) : st[k].n = name THEN 1 ELSE 0
 EffCol(st) == LET ks == {k \in 1..Len(st) : st[k].col # ""} IN IF ks = {} THEN DefaultColour ELSE st[SetMax(ks)].col
 EffBg(st) == LET ks == {k \in 1..Len(st) : st[k].bg # ""} IN IF ks = {} THEN DefaultBackground ELSE st[SetMax(ks)].bg
+\* "exactly the characters whose computed colour differs from the default": a character inside colour-carrying tags that
+\* ALL carry the default colour is enclosed for nothing (inside a tag of another colour, a default-coloured tag is how the
+\* default is restored: that is not redundant)
+RedundantCol(st) == (\E k \in 1..Len(st) : st[k].col # "") /\ (\A k \in 1..Len(st) : st[k].col \in {"", DefaultColour})
+RedundantBg(st) == (\E k \in 1..Len(st) : st[k].bg # "") /\ (\A k \in 1..Len(st) : st[k].bg \in {"", DefaultBackground})
 PopTag(st, name) ==
   LET ks == {k \in 1..Len(st) : st[k].n = name} IN
   IF ks = {} THEN st ELSE LET k == SetMax(ks) IN SubSeq(st, 1, k - 1) \o SubSeq(st, k + 1, Len(st))
@@ -439,7 +444,9 @@ PayloadFold(fmt, css, toks, k, st, cur) ==
        ELSE IF t.k = "c" THEN PayloadFold(fmt, css, toks, k + 1, PopTag(st, t.n), cur)
        ELSE PayloadFold(fmt, css, toks, k + 1, st,
                         cur \o [c \in 1..Len(t.cps) |-> [cp |-> t.cps[c], b |-> EffFlag(st, "b"), i |-> EffFlag(st, "i"),
-                                                         u |-> EffFlag(st, "u"), col |-> EffCol(st), bg |-> EffBg(st)]])
+                                                         u |-> EffFlag(st, "u"), col |-> EffCol(st), bg |-> EffBg(st),
+                                                         rcol |-> IF RedundantCol(st) THEN 1 ELSE 0,
+                                                         rbg |-> IF RedundantBg(st) THEN 1 ELSE 0]])
 
 PayloadChars(fmt, css, toks) == DropBlank(PayloadFold(fmt, css, toks, 1, <<>>, <<>>))
 
